@@ -164,6 +164,8 @@ def generate(run_seed, index, tier):
                 o = {'op': 'c_measure', 'S': _rand_subset(r, n)}
                 if r.random() < 0.25:
                     o['seed'] = r.getrandbits(32)
+                if r.random() < 0.2:
+                    o['direct'] = True
                 ops.append(o)
                 nmeas += 1
             else:
@@ -193,7 +195,17 @@ def generate(run_seed, index, tier):
             if r.random() < 0.15:
                 ops.append({'op': 'c_measure', 'S': _rand_subset(r, n)})
             o = {'op': 'c_run', 'prep': prep(), 'picks': [r.randrange(64) for _ in range(12)], 'via': 'torch' if r.random() < 0.2 else 'plain', 'reg': reg_w}
+            if r.random() < 0.15:
+                o['strided'] = True
             ops.append(maybe_fault(o))
+        if r.random() < 0.08:  # many more runs of the same circuit
+            for _ in range(r.randint(10, 25)):
+                ops.append({'op': 'c_run', 'prep': prep(), 'picks': [r.randrange(64) for _ in range(12)], 'via': 'plain', 'reg': reg_w})
+        if r.random() < 0.15:  # a second circuit object in the same process; the first one's records must stay what they were
+            ops.append({'op': 'c_new'})
+            for _ in range(r.randint(1, 4)):
+                ops.append(_gate_op(r, n, 'c_') if r.random() < 0.5 else {'op': 'c_measure', 'S': _rand_subset(r, n)})
+            ops.append({'op': 'c_measure', 'S': _rand_subset(r, n)})
         if r.random() < 0.3:
             ops.append({'op': 'c_shift', 'delta': r.choice([1, -1, 2])})
         ops.append({'op': 'c_run', 'prep': prep(), 'picks': [r.randrange(64) for _ in range(12)], 'via': 'plain', 'reg': reg_w})
@@ -322,6 +334,7 @@ class Sim:
         self.circ = None
         self.desc = []
         self.mgates = []
+        self.stash = []  # (gate, bitstr, probability) of measure gates of earlier circuits of this run
 
     def bump(self, k, v=1):
         self.stats[k] = self.stats.get(k, 0) + v
@@ -510,6 +523,10 @@ class Sim:
         k = op['op']
         nq = self.nq
         if k == 'c_new':
+            if self.circ is not None:
+                for x in self.desc:
+                    if x[0] == 'measure' and x[2].bitstr is not None and not any(x[2] is y[0] for y in self.stash):
+                        self.stash.append((x[2], [int(b) for b in x[2].bitstr], None if x[2].probability is None else np.array(x[2].probability, dtype=np.float64)))
             self.circ = nq.sim.Circuit(default_requires_grad=False)
             self.circ.register_custom_gate('classical_control_gate', ClassicalControl)
             self.desc, self.mgates = [], []
@@ -536,6 +553,8 @@ class Sim:
                     c.cz(q[0], q[1])
                 elif g == 'toffoli':
                     c.toffoli((q[0], q[1]), q[2])
+                elif g == 'rx' and int(abs(op['theta']) * 1e6) % 2:
+                    c.rx(q[0], op['theta'])  # a ParameterGate next to measure gates (conventions verified equal to the model's)
                 elif g in ('u1', 'rx'):
                     c.single_qubit_gate(U, q[0])
                 elif g == 'u2':
@@ -552,7 +571,11 @@ class Sim:
                 return
             seed = int(op['seed']) if 'seed' in op else seams.ScriptedGenerator(seed=len(self.mgates), floor=FLOOR)
             try:
-                g = c.measure(tuple(S) if len(S) > 1 or len(self.mgates) % 2 else S[0], seed=seed)
+                if op.get('direct'):
+                    g = self.nq.sim.circuit.MeasureGate(tuple(S), seed=seed, name=f'm{len(self.mgates)}')
+                    c.append_gate(g, g.index)
+                else:
+                    g = c.measure(tuple(S) if len(S) > 1 or len(self.mgates) % 2 else S[0], seed=seed)
             except Exception as e:
                 raise Violation('unexpected_exception', 'Circuit.measure', f'{type(e).__name__}: {e}')
             self.mgates.append(g)
@@ -653,6 +676,11 @@ class Sim:
         # circuits always get a complex128 input: numqi's apply_control_n_gate writes into a copy of the input and silently drops the
         # imaginary part for float64 states (a C03-type input-dtype issue, outside C11; see DESIGN §5.4)
         psi0 = born.make_state(op['prep']['kind'], w, op['prep']['seed']).astype(np.complex128)
+        if op.get('strided'):
+            big = np.zeros(2 * psi0.shape[0], dtype=np.complex128)
+            big[1::2] = 0.123  # garbage between the amplitudes: a non-contiguous view handed in by the caller
+            big[::2] = psi0
+            psi0 = big[::2]
         psi0_keep = psi0.copy()
         picks = list(op['picks'])
         self.fill_scripts(picks)
@@ -772,6 +800,12 @@ class Sim:
             raise Violation('bookkeeping', 'Circuit.apply_state', f'final state differs from the model run with the outcomes obtained at each measure gate (max dev {np.abs(out - psi).max() if out.shape == psi.shape else "shape"}): classical control / projection did not use the measurement made at that point of the circuit')
         self.log.add('run', w, [outcomes[id(x[2])] for x in self.desc if x[0] == 'measure'], np.round(out, 9) + 0.0)
         self.bump('circuit_runs')
+        # records of another circuit object of this process (stashed earlier) must not change when this one runs
+        for (g, bs0, pr0) in self.stash:
+            if list(g.bitstr or []) != bs0 or (pr0 is not None and (g.probability is None or np.abs(np.asarray(g.probability) - pr0).max() > 0)):
+                raise Violation('bookkeeping', 'MeasureGate', f'running one circuit changed the record of a measure gate on {list(g.index)} that belongs to another circuit')
+        if self.stash:
+            self.bump('cross_circuit_record_checks')
         if nm >= 2:
             self.bump('circuit_runs_with_2plus_measures')
         if any(v > 1 for v in occ.values()):
